@@ -178,6 +178,84 @@ fn typed_replies(ctx: &Ctx) {
     }
 }
 
+/// "Fails immediately with a busy error": the service withholds the reply to thread A's call
+/// until thread B's call has returned.  If B only returns once A's reply was let through, B was
+/// waiting for it.
+fn busy_is_immediate(ctx: &Ctx) {
+    for mode in ["call", "more"] {
+        for round in 0..ctx.tier.pick(3, 30) {
+            let (conn, srv_end) = pair_connection();
+            let gate = Arc::new(std::sync::atomic::AtomicBool::new(false));
+            let g2 = gate.clone();
+            let mut fs = spawn_fake(
+                srv_end,
+                move |req| {
+                    if req.get("method").and_then(|m| m.as_str()) == Some("x.y.Held") {
+                        // hold the reply back until the gate opens (10 s at most)
+                        let t0 = std::time::Instant::now();
+                        while !g2.load(Ordering::SeqCst) && t0.elapsed() < std::time::Duration::from_secs(10) {
+                            std::thread::sleep(std::time::Duration::from_millis(2));
+                        }
+                        return vec![json!({"parameters": {"held": true}})];
+                    }
+                    vec![json!({"parameters": {"other": true}})]
+                },
+                0,
+            );
+            let ca = conn.clone();
+            let a = std::thread::spawn(move || {
+                let mut mc = MC::new(ca, "x.y.Held", json!({}));
+                if mode == "call" {
+                    mc.call().map(|_| ()).map_err(|e| format!("{:?}", e.kind()))
+                } else {
+                    match mc.more() {
+                        Ok(it) => {
+                            let mut r = Ok(());
+                            for x in it {
+                                if let Err(e) = x {
+                                    r = Err(format!("{:?}", e.kind()));
+                                }
+                            }
+                            r
+                        }
+                        Err(e) => Err(format!("{:?}", e.kind())),
+                    }
+                }
+            });
+            // wait until A's request is on the wire
+            let t0 = std::time::Instant::now();
+            while fs.requests().is_empty() && t0.elapsed() < std::time::Duration::from_secs(10) {
+                std::thread::sleep(std::time::Duration::from_millis(1));
+            }
+            let cb = conn.clone();
+            let b = std::thread::spawn(move || MC::new(cb, "x.y.Other", json!({})).call().map(|_| "ok".to_string()).map_err(|e| format!("{:?}", e.kind())));
+            let t1 = std::time::Instant::now();
+            while !b.is_finished() && t1.elapsed() < std::time::Duration::from_secs(3) {
+                std::thread::sleep(std::time::Duration::from_millis(1));
+            }
+            let returned_while_held = b.is_finished();
+            gate.store(true, Ordering::SeqCst);
+            let rb = b.join().unwrap_or_else(|_| Err("panicked".into()));
+            let ra = a.join().unwrap_or_else(|_| Err("panicked".into()));
+            drop(conn);
+            fs.join();
+            let seen: Vec<String> = fs.requests().iter().map(|r| r.get("method").and_then(|m| m.as_str()).unwrap_or("?").to_string()).collect();
+            ctx.case(Some(hash_of(&("busy-immediate", mode, round))));
+            ctx.count("held_reply_rounds", 1);
+            let wit = |m: String| json!({"engine": "c07-held-reply", "mode": mode, "second_call": format!("{:?}", rb), "first_call": format!("{:?}", ra), "server_saw": seen, "message": m});
+            if !returned_while_held {
+                ctx.violation("c07:exclusivity:busy-call-waits-for-the-outstanding-reply", wit("the second thread's call had not returned 3 s after it was made, while the first call's reply was being withheld; it returned once that reply was let through".into()));
+            } else if rb != Err("ConnectionBusy".to_string()) {
+                ctx.violation("c07:exclusivity:call-while-iterating-not-busy", wit("the second thread's call did not fail with ConnectionBusy while the first call was outstanding".into()));
+            } else if seen.iter().any(|m| m == "x.y.Other") {
+                ctx.violation("c07:conservation:requests-on-wire-differ", wit("the refused call's request reached the service".into()));
+            } else if ra.is_err() {
+                ctx.violation("c07:delivery:wrong-or-failed-reply", wit("the first call did not get its reply".into()));
+            }
+        }
+    }
+}
+
 // ---------------------------------------------------------------- (ii) sequential op histories
 
 #[derive(Clone, Copy, Debug, PartialEq, Eq, Hash)]
@@ -567,6 +645,7 @@ pub fn main(ctx: &Ctx) -> i32 {
     ctx.assume("after an iteration is abandoned (call object dropped with replies still owed) the statement does not say whether the connection stays busy; judged there: no later call is handed a reply it did not request, and a refused call writes nothing");
     mapping(ctx);
     typed_replies(ctx);
+    busy_is_immediate(ctx);
     let maxlen = ctx.tier.pick(4, 6);
     let nw = workers();
     for len in 1..=maxlen {
